@@ -1085,13 +1085,38 @@ func (c *Ctx) checkConfigSemantics(r *Report, ro *Roles, rule string) bool {
 		refresh := func(cfg map[string]string) string {
 			ip, _ := w.interp()
 			nRefresh++
-			res, err := ip.Run(w.refresh, []AV{mapOf(cfg)}, nil)
-			if err != nil {
-				if _, isOOD := err.(oodError); isOOD {
-					oodWhy = err.Error()
+			// with tasks and channels: workers a logger starts are parked tasks, and a Refresh that waits for something
+			// that never comes (a Stop of a logger that was never started, …) shows as a task that does not finish
+			ip.OnGo = nil
+			sched := ip.NewSched()
+			defer sched.Kill()
+			var res AV
+			main := sched.Spawn("Refresh", func() { res = ip.call(w.refresh, []AV{mapOf(cfg)}, nil) })
+			state := sched.Step(main)
+			for n := 0; n < 20 && state != "done"; n++ {
+				// let everything else run; if Refresh is still parked afterwards nothing will ever wake it
+				var others []*Task
+				for _, t := range sched.Tasks {
+					if t != main {
+						others = append(others, t)
+					}
+				}
+				sched.RunUntilQuiet(others, 50)
+				before := ip.Steps
+				state = sched.Step(main)
+				if state != "done" && ip.Steps-before < 3 {
+					break
+				}
+			}
+			if main.Err != nil {
+				if e, isOOD := main.Err.(oodError); isOOD {
+					oodWhy = e.Error()
 					return "ood"
 				}
-				return err.Error()
+				return fmt.Sprint(main.Err)
+			}
+			if state != "done" {
+				return "never returns (" + main.Why + ")"
 			}
 			if isNilAV(res) {
 				return "ok"
@@ -1226,6 +1251,14 @@ func (c *Ctx) checkConfigSemantics(r *Report, ro *Roles, rule string) bool {
 				{"an unknown layout type", func(m map[string]string) { m["logger.l1.layout.type"] = "NoSuchLayout" }},
 				{"an unknown layout type in the appender", func(m map[string]string) { m["appender.a1.layout.type"] = "NoSuchLayout" }},
 				{"no appender reference in a logger that needs one", func(m map[string]string) { delete(m, "logger.l1.appenderRef[0].ref") }},
+				{"an asynchronous logger whose buffer size is rejected at start-up, next to another asynchronous logger", func(m map[string]string) {
+					for _, n := range []string{"la", "lb", "lc"} {
+						m["logger."+n+".type"] = "AsyncLogger"
+						m["logger."+n+".tags"] = "_" + n + "_*"
+						m["logger."+n+".appenderRef[0].ref"] = "a1"
+					}
+					m["logger.lb.bufferSize"] = "10"
+				}},
 				{"a second logger that lists the same tag", func(m map[string]string) {
 					for k, v := range cloneCfg(m) {
 						if strings.HasPrefix(k, "logger.l1.") {
